@@ -1,32 +1,84 @@
 //! `simcheck` — deterministic simulation checks for LSP4SPL.
 //! The server modules below are the repository's own files (symlink farm, see mklinks.sh).
+#![recursion_limit = "512"]
 include!("srv_mods.rs");
 pub mod h;
 
+use h::core::Tier;
+use h::driver::{self, PropDef};
+
+fn usage() -> ! {
+    eprintln!(
+        "usage: simcheck check <PROP> [--tier quick|thorough] [--seed N] [--max N]\n       simcheck replay <PROP> <scenario.json>\n       simcheck trace <PROP> <scenario.json>\n       simcheck gen <PROP> <seed> <idx> [--tier T]\n       simcheck hashes <PROP> <seed> <from> <to> [--tier T]"
+    );
+    std::process::exit(2)
+}
+
 fn main() {
-    use h::scenario::*;
-    let uri = "file:///a.spl".to_string();
-    let sc = Scenario {
-        property: "smoke".into(),
-        label: "smoke".into(),
-        seed: 1,
-        knobs: Knobs { read_cap: 7, ..Knobs::shipped() },
-        schedule: Schedule { policy: Policy::Uniform, seed: 3 },
-        script: vec![
-            Step::new(ClientOp::Initialize { id: 1, diag: true }),
-            Step::new(ClientOp::Initialized),
-            Step::new(ClientOp::Open { uri: uri.clone(), text: "proc main() { x := 1; }\n".into() }),
-            Step::new(ClientOp::Request { id: 2, method: "textDocument/foldingRange".into(), uri: uri.clone(), line: 0, character: 0 }),
-            Step::new(ClientOp::TextProbe { id: 3, uri: uri.clone() }),
-            Step::new(ClientOp::Shutdown { id: 4 }),
-            Step::new(ClientOp::Exit),
-        ],
-        segmentation: Segmentation::Fixed { k: 5 },
-        faults: vec![],
-        close_at_end: true,
+    let args: Vec<String> = std::env::args().collect();
+    if args.len() < 3 {
+        usage();
+    }
+    let flag = |name: &str| -> Option<String> {
+        args.iter().position(|a| a == name).and_then(|i| args.get(i + 1).cloned())
     };
-    println!("{}", serde_json::to_string(&sc).unwrap());
-    let rec = h::runner::run(&sc, &h::runner::RunOptions { observe_docs: true, observe_lex: true, keep_events: true });
-    for f in &rec.frames { println!("{:?}", f); }
-    println!("end={:?} hang={:?} steps={} sig={:x} panics={:?} framing={:?}", rec.end, rec.hang, rec.steps, rec.summary.hash_sig, rec.task_panics, rec.framing_error);
+    let tier = match flag("--tier").or_else(|| std::env::var("VERIF_TIER").ok()).as_deref() {
+        Some("thorough") => Tier::Thorough,
+        _ => Tier::Quick,
+    };
+    let seed: u64 = flag("--seed")
+        .or_else(|| std::env::var("VERIF_SEED").ok())
+        .and_then(|s| s.parse().ok())
+        .unwrap_or(1);
+    let def: &PropDef = match h::props::lookup(&args[2]) {
+        Some(d) => d,
+        None => {
+            eprintln!("HARNESS-ERROR: unknown property {}", args[2]);
+            std::process::exit(2);
+        }
+    };
+    match args[1].as_str() {
+        "check" => {
+            let max = flag("--max").and_then(|s| s.parse().ok());
+            println!("VERIF_SEED={seed} property={} tier={tier:?}", def.id);
+            std::process::exit(driver::run_check(def, tier, seed, max));
+        }
+        "replay" => {
+            let path = std::path::PathBuf::from(args.get(3).cloned().unwrap_or_else(|| usage()));
+            let v = driver::replay(def, &path, false);
+            if v.iter().any(|v| v.property == def.id) {
+                println!("VIOLATION property={} replay={}", def.id, path.display());
+                std::process::exit(1);
+            }
+        }
+        "gen" => {
+            let s: u64 = args.get(3).and_then(|s| s.parse().ok()).unwrap_or_else(|| usage());
+            let i: u64 = args.get(4).and_then(|s| s.parse().ok()).unwrap_or_else(|| usage());
+            match (def.work)(s, tier, i) {
+                Some(sc) => println!("{}", serde_json::to_string_pretty(&sc).unwrap()),
+                None => println!("null"),
+            }
+        }
+        "hashes" => {
+            // determinism proof support: one line per work item with the full event-log hashes of
+            // every simulated run the judge performed and the verdict
+            let s: u64 = args.get(3).and_then(|s| s.parse().ok()).unwrap_or_else(|| usage());
+            let from: u64 = args.get(4).and_then(|s| s.parse().ok()).unwrap_or_else(|| usage());
+            let to: u64 = args.get(5).and_then(|s| s.parse().ok()).unwrap_or_else(|| usage());
+            let from_file = std::env::var("VERIF_VIA_JSON").is_ok();
+            for i in from..to {
+                let Some(mut sc) = (def.work)(s, tier, i) else { break };
+                if from_file {
+                    // round-trip through the JSON form, as a replay would
+                    let text = serde_json::to_string(&sc).unwrap();
+                    sc = serde_json::from_str(&text).unwrap();
+                }
+                let j = (def.judge)(&sc);
+                let hs: Vec<String> = j.runs.iter().map(|r| format!("{:016x}/{}", r.full, r.events)).collect();
+                let vs: Vec<String> = j.violations.iter().map(|v| format!("{}:{}", v.clause, v.signature)).collect();
+                println!("{i} {} {}", hs.join(","), vs.join(";"));
+            }
+        }
+        _ => usage(),
+    }
 }
